@@ -409,6 +409,9 @@ class ValueWrapper(Term):
             return cls.get_formatted_value(value.isoformat(), ctx)
         if isinstance(value, str):
             value = value.replace(quote_char, quote_char * 2)
+            if ctx.dialect == Dialects.MYSQL:
+                # MySQL reads backslash escapes inside string literals
+                value = value.replace("\\", "\\\\")
             return format_quotes(value, quote_char)
         if isinstance(value, bool):
             return str(value).lower()
